@@ -17,10 +17,11 @@ Abstract(q) == <<IF HasPrefix(q, T_win) THEN "win" ELSE IF HasPrefix(q, T_def) T
                  IsSubstr(T_mark, q)>>
 Clause(o) ==
     IF ~o.fresh.ok THEN      \* the fresh conversion fails (strict mapping check): so must the probe, the same way
-        (IF ~o.fresh.sigma \/ ~o.direct THEN "FreshReferenceFailed"
+        \* (optph: the variable of an option this backend was not given does not exist - the same error every time)
+        (IF ~o.fresh.sigma \/ ~(o.direct \/ o.optph) THEN "FreshReferenceFailed"
          ELSE IF o.got.ok THEN "HistoryFree:probe-converts"
          ELSE IF o.got.exc # o.fresh.exc THEN "HistoryFree:other-error"
-         ELSE IF FreshResult(2, o.probe[1], "direct")[4] # TRUE THEN "AbstractResultAsModel" ELSE "")
+         ELSE IF o.direct /\ FreshResult(2, o.probe[1], "direct")[4] # TRUE THEN "AbstractResultAsModel" ELSE "")
     ELSE IF ~o.got.ok THEN (IF o.got.sigma THEN "HistoryFree:probe-fails" ELSE "NonSigmaException")
     ELSE IF o.got.out # o.fresh.out THEN "HistoryFree"
     ELSE IF o.errors_delta # 0 THEN "HistoryFree:errors"
